@@ -3,6 +3,8 @@
 package config
 
 import (
+	"strconv"
+	"strings"
 	"time"
 
 	"github.com/magiconair/properties"
@@ -46,4 +48,40 @@ func VerifListenFieldOK(k, v string) bool {
 		_, err = parseTLSCiphers(v)
 	}
 	return err == nil
+}
+
+// VerifSliceSet drives the flag values of the list-valued options the way load does: the variable is first
+// pointed at the given default (newStringSliceValue / newFloatSliceValue), then Set is called with each string.
+// It returns the final value rendered by the value's own String method, the index of the first Set that
+// returned an error (-1: none; later strings are still applied, as ParseFlags ignores the error), and the
+// default's whole backing array (dflt[:cap(dflt)]) as it is afterwards.
+func VerifSliceSet(float bool, dflt []string, spare int, sets []string) (value string, isNil bool, errAt int, backing []string) {
+	errAt = -1
+	if float {
+		d := make([]float64, len(dflt), len(dflt)+spare)
+		for i, s := range dflt {
+			d[i], _ = strconv.ParseFloat(s, 64)
+		}
+		var p []float64
+		v := newFloatSliceValue(d, &p)
+		for i, s := range sets {
+			if err := v.Set(s); err != nil && errAt < 0 {
+				errAt = i
+			}
+		}
+		for _, x := range d[:cap(d)] {
+			backing = append(backing, strconv.FormatFloat(x, 'g', -1, 64))
+		}
+		return v.String(), p == nil, errAt, backing
+	}
+	d := make([]string, len(dflt), len(dflt)+spare)
+	copy(d, dflt)
+	var p []string
+	v := newStringSliceValue(d, &p)
+	for i, s := range sets {
+		if err := v.Set(s); err != nil && errAt < 0 {
+			errAt = i
+		}
+	}
+	return strings.Join(p, "\x00"), p == nil, errAt, append([]string{}, d[:cap(d)]...)
 }
